@@ -342,9 +342,21 @@ def long_monitor_case(rng, alg, jump, rounds):
             "max_rounds": rounds, "jump": jump}
 
 
+def dsupdate_case(rng, typ=None, empty=None):
+    K, m = rng.randint(1, 6), rng.randint(2, 3)
+    return {"kind": "dsupdate", "type": typ or rng.choice(["rect", "ell"]),
+            "empty": empty or rng.choice(["list", "array", "tuple", "set"]), "K": K, "m": m,
+            "means": [[core.dyadic(rng, -64, 64, 4) for _ in range(m)] for _ in range(K)],
+            "scale0": rng.choice([0.5, 1.0, 3.0]), "scale1": rng.choice([0.125, 0.25, 7.0]),
+            "first": sorted(rng.sample(range(K), rng.randint(0, K)))}
+
+
 def gen(ctx):
     rng = ctx.rng
     if ctx.worker == 0:
+        for typ in ("rect", "ell"):
+            for empty in ("list", "array", "tuple", "set"):
+                yield dsupdate_case(rng, typ, empty)
         for name in sorted(CTOR_ALGS):
             for d in (1e-12, 1e-9, 1 - 1e-9):
                 yield ctor_case(rng, name, d)
@@ -363,6 +375,8 @@ def gen(ctx):
         yield ctor_case(rng)
     for _ in range(ctx.n(3, 300)):
         yield history_case(rng)
+    for _ in range(ctx.n(8, 400)):
+        yield dsupdate_case(rng)
     for _ in range(ctx.n(4, 280)):
         yield monitor_case(rng)
     # the corner of the parameter space where the union bounds are tightest, always
@@ -696,6 +710,47 @@ def run_ctor(ctx, case):
     ctx.case_done(case, True)
 
 
+# ------------------------------------------------------------------------------------- dsupdate
+def run_dsupdate(ctx, case):
+    from vopy.design_space import FixedPointsDesignSpace
+
+    K, m, typ = case["K"], case["m"], case["type"]
+    ctx.count("dsupdate_" + case["empty"])
+    pts = np.hstack([np.zeros((K, 1)), np.arange(K)[:, None].astype(float)])
+    ds = FixedPointsDesignSpace(pts, m, confidence_type="hyperrectangle" if typ == "rect" else "hyperellipsoid")
+    model = StubModel(np.array(case["means"], dtype=float), np.array([np.eye(m)] * K))
+
+    def snap():
+        if typ == "rect":
+            return [(np.array(r.lower, dtype=float).ravel().tolist(), np.array(r.upper, dtype=float).ravel().tolist())
+                    for r in ds.confidence_regions]
+        return [(np.array(r.center, dtype=float).ravel().tolist(), np.array(r.sigma, dtype=float).ravel().tolist(),
+                 float(np.asarray(r.alpha, dtype=float))) for r in ds.confidence_regions]
+
+    empty = {"list": [], "array": np.array([], dtype=int), "tuple": (), "set": set()}[case["empty"]]
+    try:
+        if case["first"]:
+            ds.update(model, np.array(case["scale0"]), list(case["first"]))  # some designs already have a region
+        before = snap()
+    except Exception as e:
+        ctx.violation("dsupdate-crash:" + core.exc_key(e), f"design_space.update raised {type(e).__name__}: {e}", case,
+                      kind="F")
+        ctx.case_done(case, True)
+        return
+    try:
+        ds.update(model, np.array(case["scale1"]), empty)
+    except Exception:
+        ctx.count("dsupdate_empty_rejected_info")  # refusing an odd container is fine; updating everything is not
+    after = snap()
+    moved = [i for i in range(K) if after[i] != before[i]]
+    if moved:
+        ctx.violation("empty-index-list-updates",
+                      f"FixedPointsDesignSpace.update(model, scale, {empty!r}) rebuilt the regions of designs {moved} with "
+                      f"scale {case['scale1']}: an empty index collection means 'update nothing' — the bandit radii are "
+                      f"valid only for designs sampled in the current round", case, kind="R", detail={"moved": moved})
+    ctx.case_done(case, True)
+
+
 # ------------------------------------------------------------------------------------- history
 def run_history(ctx, case):
     from vopy.models import EmpiricalMeanVarModel
@@ -770,6 +825,21 @@ def run_monitor(ctx, case):
         kw["W"] = case["W"]
     a = stubs.build(alg, **kw)
     ds = a.design_space
+    rec = stubs.RecordingProblem.attach(a)  # which design every observation was requested FOR
+    own_sum = np.zeros((K, m))
+    own_cnt = [0] * K
+    rec_pos = [0]
+
+    def absorb_observations():
+        for call in rec.calls[rec_pos[0]:]:
+            x = np.asarray(call["x"], dtype=float).reshape(len(call["values"]), -1)
+            for row, val in zip(x, np.asarray(call["values"], dtype=float)):
+                j = int(np.argmin(np.abs(np.arange(K) - row[0])))  # nearest design (inputs are 0..K-1)
+                own_sum[j] += val  # dyadic observations: exact sums
+                own_cnt[j] += 1
+        del rec.calls[:]
+        rec_pos[0] = 0
+
     refreshed = []
     real_update = ds.update
 
@@ -845,6 +915,7 @@ def run_monitor(ctx, case):
             else:
                 sched = model_scale(ctx, "auer", K, m, delta, t, nv, 1.0)
             means = np.asarray(a.model.means, dtype=float)
+            absorb_observations()
             for i in R:
                 n = counts[i]
                 reentry = i in skipped
@@ -866,6 +937,17 @@ def run_monitor(ctx, case):
                                      + f"; true value {Y[i].tolist()}, radius/half-width {sched}",
                                      {"round": t, "design": i, "update_order": handed, "true_value": Y[i].tolist(),
                                       "distance_truth_centre": float(np.linalg.norm(centre - Y[i]))}))
+                # (a') ... and the mean of the observations that were requested for THIS design
+                if own_cnt[i] > 0:
+                    own_mean = own_sum[i] / own_cnt[i]
+                    if not np.all(np.abs(centre - own_mean) <= 1e-12 * (1.0 + np.abs(own_mean))):
+                        problems.append((f"region-not-from-own-observations:{key_alg}", "R",
+                                         f"{alg}: round {t}: the region displayed for design {i} is centred at "
+                                         f"{centre.tolist()} but the {own_cnt[i]} observations requested for design {i} "
+                                         f"average to {own_mean.tolist()} (true value {Y[i].tolist()}, radius/half-width "
+                                         f"{sched}): observations are booked on the wrong design",
+                                         {"round": t, "design": i, "update_order": handed,
+                                          "model_samples": counts, "requested_samples": list(own_cnt)}))
                 # (b) a design whose region is rebuilt this round must have been sampled this round
                 if counts[i] != counts_before[i] + 1:
                     problems.append((f"sampling-assumption:{key_alg}", "R",
@@ -910,6 +992,26 @@ def run_monitor(ctx, case):
             skipped |= {i for i in ever_active if i not in R}
             if done:
                 break
+        if rounds and len(a.S) == 0 and not any(k.startswith("monitor-crash") for k, *_ in problems):
+            # the run is over (empty active set): the public modeling() / one more run_one_step() must not
+            # rebuild any region — nothing is sampled any more
+            ctx.count("monitor_post_termination_probes")
+            for label in ("modeling", "run_one_step"):
+                before, cb = snapshot(), [len(sm) for sm in a.model.design_samples]
+                try:
+                    getattr(a, label)()
+                except Exception as e:
+                    problems.append((f"monitor-post-termination-crash:{key_alg}", "F",
+                                     f"{alg}.{label}() after termination raised {type(e).__name__}: {e}", None))
+                    continue
+                after, ca = snapshot(), [len(sm) for sm in a.model.design_samples]
+                moved = [i for i in range(K) if after[i] != before[i] and ca[i] == cb[i]]
+                if moved:
+                    problems.append((f"sampling-assumption:{key_alg}", "R",
+                                     f"{alg}: after the run finished in round {int(a.round)} (no active design), "
+                                     f"{label}() rebuilt the regions of designs {moved} with the current radius although "
+                                     f"none of them was sampled (they hold {[ca[i] for i in moved]} samples)",
+                                     {"round": int(a.round), "designs": moved, "samples": ca}))
     ctx.count("monitor_rounds", rounds)
     ctx.count("monitor_rounds_with_U", u_rounds)
     ctx.count("monitor_rounds_with_P_minus_U_and_S", pdiffu_rounds)
@@ -942,5 +1044,7 @@ def run_case(ctx, case):
         run_ctor(ctx, case)
     elif kind == "history":
         run_history(ctx, case)
+    elif kind == "dsupdate":
+        run_dsupdate(ctx, case)
     else:
         raise ValueError(f"unknown case kind {kind}")
